@@ -83,6 +83,8 @@ func negative(k ref.FKind, p ref.Pat) bool {
 // (every rewrite is counted): NaN literals with a non-canonical payload become the
 // canonical quiet NaN of the same sign.
 func applyExclusions(x string) string {
+	// debug-info fields the data model cannot hold (open findings): rewritten, every rewrite counted
+	x = kf.RewriteDebugInfo(x, "C01", genOff["di-default-true-bools"], genOff["di-dwarfAddressSpace-zero"])
 	if !kfNaN || !strings.Contains(x, "0x") {
 		return x
 	}
